@@ -159,7 +159,8 @@ theorem source_never_changes_what_was_there_partial (fuel : Nat) (toks : List To
     simp only at h
     have e0 : Ext0 s s2 := hb.ext0
     obtain ⟨hmode, hnest⟩ := build1_ok_base fuel toks (by decide) hg hb
-    simp only [Sess.contextClose, hnest, hmode] at h
+    have hmode' : (forgetBuildLog s.m s2.m).ctx.mode = .compile := hmode
+    simp only [Sess.contextClose, hnest, hmode'] at h
     cases h
     exact ⟨e0.heap, e0.ds, e0.rs, e0.code, rfl, rfl⟩
   | err e2 s2 => cases h
